@@ -12,7 +12,7 @@
      for every admitted query, fault script and arrival pattern: exactly one reply reaches
      the client's socket, no later than querytimeout + margin; expiry/cancel/capacity
      refusal is a SERVFAIL to that client only; after load stops the server is quiescent. *)
-From Sdns Require Import Common.Base Gen.C11 C11.Model C11.Proofs_Writer C11.Proofs_WG C11.Proofs_Req C11.Proofs_World C11.Proofs_Lazy C11.Stream C11.Proofs_Stream C11.Regroup C11.Proofs_Regroup C11.Proofs_Live.
+From Sdns Require Import Common.Base Gen.C11 C11.Model C11.Proofs_Writer C11.Proofs_WG C11.Proofs_Req C11.Proofs_World C11.Proofs_Lazy C11.Stream C11.Proofs_Stream C11.Regroup C11.Proofs_Regroup C11.Proofs_Live C11.Proofs_Quiesce C11.Shutdown C11.Proofs_Shutdown.
 
 (* ---- translator ties ---- *)
 Theorem writer_sentinels_consistent :
@@ -231,3 +231,83 @@ Theorem ended_context_unfinished_only_downstream : forall w i q,
   (exists l k p, r_pc (q_st q) = PJoining l /\ join_op l = ORegroup k (Some p) /\ nth_error (gens (wwg w)) p = None).
 Proof. exact ended_context_only_in_downstream. Qed.
 Print Assumptions ended_context_unfinished_only_downstream.
+
+(* ---- the composed world settles (wave 5): the two pieces that kept exactly_one_reply_partial open ---- *)
+(* [quiesce]'s fuel suffices: every micro-step of every request strictly decreases the sum of
+   the per-request measures (+1 for a downstream call not yet made), and the fuel
+   40 * (requests + 1) bounds that sum (the bound uses the source's maxFailureProbeRegroups). *)
+Theorem quiesce_reaches_quiescence : forall w, quiescent (quiesce (qfuel w) w).
+Proof. exact quiesce_reaches_quiescence_lemma. Qed.
+Print Assumptions quiesce_reaches_quiescence.
+
+(* the previous-generation index a request regroups on is always a generation: an invariant of
+   the generation automaton inside the world (groups and successor links point at existing
+   generations; a request's indices come from join results) *)
+Theorem previous_generation_never_dangles : forall rs evs i q l k p,
+  Forall fresh rs ->
+  let w := fold_left wevent_step evs (world0 rs) in
+  nth_error (reqs w) i = Some q -> r_pc (q_st q) = PJoining l -> join_op l = ORegroup k (Some p) ->
+  nth_error (gens (wwg w)) p <> None.
+Proof. exact no_dangling_reachable. Qed.
+Print Assumptions previous_generation_never_dangles.
+
+(* every history of arrivals, cancellations, releases, clock advances: the world is settled, and
+   an arrived request without an outcome is a follower (own context alive) of a LIVE generation
+   or sits in a downstream call that has not returned - nothing else *)
+Theorem every_history_settles : forall rs evs,
+  Forall fresh rs -> Forall (fun q => q_arrived q = false) rs ->
+  let w := fold_left wevent_step evs (world0 rs) in
+  quiescent w /\
+  forall i q, nth_error (reqs w) i = Some q -> q_arrived q = true -> is_end (q_st q) = false ->
+    (exists l g, r_pc (q_st q) = PWaiting l g /\ gstat (wwg w) g = GLive /\ q_ctx q = CNone) \/
+    (exists lead, r_pc (q_st q) = PDown lead /\ q_called q = true /\
+       ((q_hold q = HUntilRelease /\ q_released q = false) \/ (q_hold q = HUntilCtx /\ q_ctx q = CNone))).
+Proof. exact world_settled. Qed.
+Print Assumptions every_history_settles.
+
+(* THE MODEL-LEVEL STATEMENT: in every schedule of the model, an admitted request whose own
+   context has ended (deadline fired or client gone) and whose downstream handler returns when
+   its context ends (or was released) HAS ended, in exactly one reply or a recorded drop with its
+   cause (client-cancelled / downstream silent); with [exactly_one_reply_partial] (never two
+   replies, nothing before the end) this is "exactly one reply or a recorded drop, in every
+   schedule of the model".  What stays outside: that Go's scheduler, contexts and timers realise
+   the atomic steps, wall-clock latency, leak freedom. *)
+Theorem exactly_one_reply_or_recorded_drop : forall rs evs,
+  Forall fresh rs -> Forall (fun q => q_arrived q = false) rs ->
+  let w := fold_left wevent_step evs (world0 rs) in
+  forall i q, nth_error (reqs w) i = Some q -> q_arrived q = true -> q_ctx q <> CNone ->
+    (q_hold q <> HUntilRelease \/ q_released q = true) ->
+    exists o, r_pc (q_st q) = PEnd o /\
+      match o with OReplied r => r_emits (q_st q) = [r] | _ => r_emits (q_st q) = [] end.
+Proof. exact ended_context_has_outcome. Qed.
+Print Assumptions exactly_one_reply_or_recorded_drop.
+
+(* ---- UDP listener shutdown (wave 5; Shutdown.v = listener_udp.go Shutdown + udpEngine.stopAndDrain) ---- *)
+(* the bounds hold under shutdown: whatever the history and wherever the shutdown falls in it,
+   every request has written at most one reply, nothing before it ended, outcome = what was written *)
+Theorem shutdown_at_most_one_reply : forall rs paths workers qcap cap evs,
+  Forall fresh rs ->
+  Forall (fun q => one_reply_and_agreeing_outcome (q_st q))
+         (reqs (s_w (d_s (drun (dworld0 (sworld0 rs paths workers qcap cap)) evs)))).
+Proof. exact shutdown_one_reply. Qed.
+Print Assumptions shutdown_at_most_one_reply.
+
+(* admission stops at the shutdown: a datagram arriving afterwards is never read *)
+Theorem shutdown_stops_admission : forall d i st,
+  d_stop d = Some st -> (path_of (d_s d) i =? 0)%N = false -> dstep d (DArrive i) = d.
+Proof. exact admission_stopped. Qed.
+Print Assumptions shutdown_stops_admission.
+
+(* the drain is bounded by its timeout: at stop + drain the sockets are closed, drained or not *)
+Theorem shutdown_closes_by_deadline : forall d st t,
+  d_stop d = Some st -> (st + d_drain d <= t)%N -> d_closed (dstep d (DAdvance t)) = true.
+Proof. exact closed_by_deadline. Qed.
+Print Assumptions shutdown_closes_by_deadline.
+
+(* a reply is lost to the shutdown only through the one recorded cause: the drain ran into its
+   deadline (errDrainTimeout) with that job unfinished when the sockets closed *)
+Theorem shutdown_loss_only_by_recorded_timeout : forall s evs i,
+  let d := drun (dworld0 s) evs in
+  In i (d_lost d) -> d_err d = true /\ d_closed d = true /\ d_stop d <> None.
+Proof. exact loss_only_by_recorded_timeout. Qed.
+Print Assumptions shutdown_loss_only_by_recorded_timeout.
